@@ -289,3 +289,213 @@ Proof.
     match goal with F : forallb _ _ = true |- _ => rewrite forallb_forall in F; specialize (F d Hd) end.
     lia.
 Qed.
+
+(** * [weakly_increasing] / [strictly_increasing] as properties *)
+
+Lemma weakly_increasing_cons a l :
+  weakly_increasing (a :: l) = true <-> (forall x, In x l -> a <= x) /\ weakly_increasing l = true.
+Proof.
+  revert a. induction l as [|b l IH]; intros a.
+  - cbn. split; [intros _; split; [intros x []|reflexivity]|reflexivity].
+  - change (weakly_increasing (a :: b :: l)) with ((a <=? b) && weakly_increasing (b :: l)).
+    rewrite andb_true_iff. split.
+    + intros [H1 H2]. split; [|exact H2]. intros x [<-|Hx]; [lia|].
+      apply IH in H2. destruct H2 as [H2 _]. specialize (H2 x Hx). lia.
+    + intros [H1 H2]. split; [|exact H2]. specialize (H1 b (or_introl eq_refl)). lia.
+Qed.
+
+Lemma weakly_increasing_nth l : forall i j,
+  weakly_increasing l = true -> (i <= j)%nat -> (j < length l)%nat -> nth i l 0 <= nth j l 0.
+Proof.
+  induction l as [|a l IH]; intros i j W Hij Hj; [cbn in Hj; lia|].
+  apply weakly_increasing_cons in W. destruct W as [W1 W2].
+  destruct i as [|i]; destruct j as [|j]; cbn [nth]; try lia.
+  - apply W1. apply nth_In. cbn in Hj. lia.
+  - apply IH; [assumption|lia|cbn in Hj; lia].
+Qed.
+
+Lemma strictly_increasing_cons a l :
+  strictly_increasing (a :: l) = true <-> (forall x, In x l -> a < x) /\ strictly_increasing l = true.
+Proof.
+  revert a. induction l as [|b l IH]; intros a.
+  - cbn. split; [intros _; split; [intros x []|reflexivity]|reflexivity].
+  - change (strictly_increasing (a :: b :: l)) with ((a <? b) && strictly_increasing (b :: l)).
+    rewrite andb_true_iff. split.
+    + intros [H1 H2]. split; [|exact H2]. intros x [<-|Hx]; [lia|].
+      apply IH in H2. destruct H2 as [H2 _]. specialize (H2 x Hx). lia.
+    + intros [H1 H2]. split; [|exact H2]. specialize (H1 b (or_introl eq_refl)). lia.
+Qed.
+
+Lemma strictly_increasing_NoDup l : strictly_increasing l = true -> NoDup l.
+Proof.
+  induction l as [|a l IH]; intros H; [constructor|].
+  apply strictly_increasing_cons in H. destruct H as [H1 H2]. constructor; [|now apply IH].
+  intros Hin. specialize (H1 a Hin). lia.
+Qed.
+
+(** * the coordinates listed by [walk] over well-formed levels: no duplicates, in range *)
+
+Definition cons_hd (i : Z) (cq : list Z * Z) : list Z * Z := (i :: fst cq, snd cq).
+
+Lemma NoDup_app_disjoint {A} (a b : list A) :
+  NoDup a -> NoDup b -> (forall x, In x a -> ~ In x b) -> NoDup (a ++ b).
+Proof.
+  induction a as [|x a IH]; intros Ha Hb H; [exact Hb|].
+  inversion Ha; subst. cbn. constructor.
+  - rewrite in_app_iff. intros [?|?]; [contradiction|]. eapply H; [left; reflexivity|assumption].
+  - apply IH; auto. intros y Hy. apply H. now right.
+Qed.
+
+Lemma NoDup_flat_map_cons_hd {I} (h : I -> Z) (G : I -> list (list Z * Z)) idx :
+  NoDup (map h idx) -> (forall i, In i idx -> NoDup (map fst (G i))) ->
+  NoDup (map fst (flat_map (fun i => map (cons_hd (h i)) (G i)) idx)).
+Proof.
+  induction idx as [|i idx IH]; intros Hi HG; [constructor|].
+  cbn [map] in Hi. inversion Hi as [|? ? Hn Hi']; subst. cbn [flat_map]. rewrite map_app.
+  apply NoDup_app_disjoint.
+  - rewrite map_map. cbn [cons_hd fst].
+    rewrite <- (map_map fst (cons (h i))). apply FinFun.Injective_map_NoDup; [|apply HG; now left].
+    intros a b E. now inversion E.
+  - apply IH; [assumption|]. intros j Hj. apply HG. now right.
+  - intros c Hc Hc'. rewrite map_map in Hc. apply in_map_iff in Hc. destruct Hc as (cv & <- & _).
+    apply in_map_iff in Hc'. destruct Hc' as (cv' & E & Hin).
+    apply in_flat_map in Hin. destruct Hin as (i' & Hi'' & Hin).
+    apply in_map_iff in Hin. destruct Hin as (cv'' & <- & _). cbn in E. inversion E as [[E1 E2]].
+    apply Hn. rewrite <- E1. now apply in_map.
+Qed.
+
+Fixpoint coord_within (lv : list (level * Z)) (c : list Z) : Prop :=
+  match lv, c with
+  | [], [] => True
+  | (_, d) :: r, x :: c' => 0 <= x < d /\ coord_within r c'
+  | _, _ => False
+  end.
+
+Lemma walk_cons_hd lv p i :
+  walk lv p [i] = map (cons_hd i) (walk lv p []).
+Proof. rewrite walk_prefix. apply map_ext. intros [c q]. reflexivity. Qed.
+
+Lemma walk_wf lv : forall n k p,
+  wf_levelsb lv n = Some k -> 0 <= p < n ->
+  NoDup (map fst (walk lv p []))
+  /\ forall c q, In (c, q) (walk lv p []) -> 0 <= q < k /\ coord_within lv c.
+Proof.
+  induction lv as [|[l d] lv IH]; intros n k p W Hp.
+  - cbn in W. inversion W; subst. cbn. split; [constructor; [intros []|constructor]|].
+    intros c q [H|[]]. inversion H; subst. split; [lia|exact I].
+  - destruct l as [|pos crd]; cbn [wf_levelsb] in W.
+    + destruct (0 <=? d) eqn:Ed; [|discriminate].
+      assert (forall i, In i (zrange d) -> 0 <= p * d + i < n * d) as Hr.
+      { intros i Hi. apply In_zrange in Hi. nia. }
+      cbn [walk]. split.
+      * erewrite flat_map_ext_in; [|intros i _; apply walk_cons_hd].
+        apply (NoDup_flat_map_cons_hd (fun i => i) (fun i => walk lv (p * d + i) [])).
+        -- rewrite map_id. apply NoDup_zrange.
+        -- intros i Hi. apply (IH _ _ _ W (Hr i Hi)).
+      * intros c q Hin. apply in_flat_map in Hin. destruct Hin as (i & Hi & Hin).
+        rewrite walk_cons_hd in Hin. apply in_map_iff in Hin. destruct Hin as ([c' q'] & E & Hin).
+        inversion E; subst. destruct (IH _ _ _ W (Hr i Hi)) as [_ H]. destruct (H _ _ Hin) as [H1 H2].
+        split; [exact H1|]. cbn. split; [apply In_zrange in Hi; lia|exact H2].
+    + destruct (wf_compressedb n d pos crd) eqn:Wc; [|discriminate].
+      unfold wf_compressedb in Wc. rewrite !andb_true_iff in Wc.
+      destruct Wc as [[[[[W1 W2] W3] W4] W5] W6].
+      assert (length pos = Z.to_nat (n + 1)) as Lp by (unfold zlen in W1; lia).
+      assert (nthZ 0 pos p = nth (Z.to_nat p) pos 0) as Ep by (apply nthZ_nonneg; lia).
+      assert (nthZ 0 pos (p + 1) = nth (Z.to_nat (p + 1)) pos 0) as Ep1 by (apply nthZ_nonneg; lia).
+      assert (nth 0 pos 0 = 0) as P0.
+      { rewrite nthZ_nonneg in W2 by lia. rewrite (nth_indep _ 0 (-1)) by lia. cbn in W2. lia. }
+      assert (nth (Z.to_nat n) pos 0 = zlen crd) as Pn.
+      { rewrite nthZ_nonneg in W4 by lia. rewrite (nth_indep _ 0 (-1)) by lia. lia. }
+      assert (0 <= nthZ 0 pos p) as Lo.
+      { rewrite Ep. pose proof (weakly_increasing_nth pos O (Z.to_nat p) W3 ltac:(lia) ltac:(lia)). lia. }
+      assert (nthZ 0 pos (p + 1) <= zlen crd) as Hi.
+      { rewrite Ep1.
+        pose proof (weakly_increasing_nth pos (Z.to_nat (p + 1)) (Z.to_nat n) W3 ltac:(lia) ltac:(lia)). lia. }
+      assert (forall q, In q (zrange2 (nthZ 0 pos p) (nthZ 0 pos (p + 1))) -> 0 <= q < zlen crd) as Hq.
+      { intros q Hin. apply In_zrange2 in Hin. lia. }
+      assert (forall q, 0 <= q < zlen crd -> 0 <= nthZ (-1) crd q < d) as Hc.
+      { intros q Hq'. rewrite forallb_forall in W6. rewrite nthZ_nonneg by lia.
+        assert (In (nth (Z.to_nat q) crd (-1)) crd) as Hin by (apply nth_In; unfold zlen in Hq'; lia).
+        specialize (W6 _ Hin). lia. }
+      cbn [walk]. split.
+      * erewrite flat_map_ext_in; [|intros q _; apply walk_cons_hd].
+        apply (NoDup_flat_map_cons_hd (fun q => nthZ (-1) crd q) (fun q => walk lv q [])).
+        -- rewrite forallb_forall in W5. specialize (W5 p ltac:(apply In_zrange; lia)).
+           unfold segment in W5. now apply strictly_increasing_NoDup.
+        -- intros q Hin. apply (IH _ _ _ W (Hq q Hin)).
+      * intros c q0 Hin. apply in_flat_map in Hin. destruct Hin as (q & Hqi & Hin).
+        rewrite walk_cons_hd in Hin. apply in_map_iff in Hin. destruct Hin as ([c' q'] & E & Hin).
+        inversion E; subst. destruct (IH _ _ _ W (Hq q Hqi)) as [_ H]. destruct (H _ _ Hin) as [H1 H2].
+        split; [exact H1|]. cbn. split; [apply Hc; now apply Hq|exact H2].
+Qed.
+
+Lemma coord_within_nth lv c :
+  coord_within lv c ->
+  length c = length lv /\ forall l, (l < length lv)%nat -> 0 <= nth l c (-1) < nth l (map snd lv) 0.
+Proof.
+  revert c. induction lv as [|[lvl d] lv IH]; intros [|x c] H; cbn in H; try contradiction.
+  - split; [reflexivity|]. intros l Hl. cbn in Hl. lia.
+  - destruct H as [H1 H2]. destruct (IH _ H2) as [L N]. split; [cbn; lia|].
+    intros [|l] Hl; cbn [nth map snd]; [exact H1|]. apply N. cbn in Hl. lia.
+Qed.
+
+Lemma combine_map_snd {A B} (a : list A) (b : list B) :
+  length a = length b -> map snd (combine a b) = b.
+Proof.
+  revert b. induction a as [|x a IH]; intros [|y b] L; cbn in L; try discriminate; [reflexivity|].
+  cbn. f_equal. apply IH. lia.
+Qed.
+
+Lemma combine_map_fst {A B} (a : list A) (b : list B) :
+  length a = length b -> map fst (combine a b) = a.
+Proof.
+  revert b. induction a as [|x a IH]; intros [|y b] L; cbn in L; try discriminate; [reflexivity|].
+  cbn. f_equal. apply IH. lia.
+Qed.
+
+(** The stored entries of a well-formed tensor: every coordinate once, all within the dimensions. *)
+Theorem wf_entries {V} (dflt : V) strict (t : tensor V) :
+  wf_tensorb strict t = true ->
+  NoDup (map fst (entries dflt t))
+  /\ forall c v, In (c, v) (entries dflt t) ->
+       length c = length (dims t)
+       /\ forall i, (i < length (dims t))%nat -> 0 <= nth i c 0 < nth i (dims t) 0.
+Proof.
+  intros W. pose proof (wf_tensorb_shape _ _ W) as (L1 & L2 & P & Dm).
+  unfold wf_tensorb in W. apply andb_true_iff in W. destruct W as [_ W].
+  destruct (wf_levelsb (combine (levels t) (level_dims t)) 1) as [k|] eqn:E; [|discriminate].
+  destruct (walk_wf _ _ _ 0 E ltac:(lia)) as [ND HW].
+  set (lv := combine (levels t) (level_dims t)) in *.
+  assert (length (level_dims t) = length (ordering t)) as Lld by (unfold level_dims; apply map_length).
+  assert (length lv = length (ordering t)) as Llv by (unfold lv; rewrite combine_length; lia).
+  assert (map snd lv = level_dims t) as Ms.
+  { unfold lv. apply combine_map_snd. lia. }
+  unfold entries. fold lv. split.
+  - rewrite map_map.
+    assert (map (fun x : list Z * Z => fst (let '(lc, p) := x in (to_dim_order (ordering t) lc, nthZ dflt (vals t) p)))
+                (walk lv 0 [])
+            = map (to_dim_order (ordering t)) (map fst (walk lv 0 []))) as ->.
+    { rewrite map_map. apply map_ext. intros [c q]. reflexivity. }
+    assert (forall a, In a (map fst (walk lv 0 [])) -> length a = length (ordering t)) as La.
+    { intros a Ha. apply in_map_iff in Ha. destruct Ha as ([c q] & <- & Hin). cbn [fst].
+      apply walk_length in Hin. cbn in Hin. lia. }
+    revert ND La. generalize (map fst (walk lv 0 [])). intros l ND La.
+    induction ND as [|a l Hn ND IH]; [constructor|]. cbn [map]. constructor.
+    + intros Hin. apply in_map_iff in Hin. destruct Hin as (b & Eb & Hb).
+      assert (b = a).
+      { apply (to_dim_order_inj (ordering t)); [assumption| | |exact Eb]; apply La; [now right|now left]. }
+      subst. contradiction.
+    + apply IH. intros b Hb. apply La. now right.
+  - intros c v Hin. apply in_map_iff in Hin. destruct Hin as ([lc q] & E' & Hin).
+    inversion E'; subst c v. clear E'.
+    destruct (HW _ _ Hin) as [_ Hc]. apply coord_within_nth in Hc. destruct Hc as [Lc Nc].
+    split; [rewrite to_dim_order_length; lia|].
+    intros i Hi. unfold to_dim_order.
+    rewrite (nth_map_lt _ _ _ _ O) by (rewrite seq_length; lia).
+    rewrite seq_nth by lia. cbn [plus].
+    assert (In i (ordering t)) as Hio by (apply (is_permb_In _ P); lia).
+    destruct (index_of_In i (ordering t) Hio) as [I1 I2].
+    specialize (Nc (index_of i (ordering t)) ltac:(lia)).
+    rewrite Ms in Nc. unfold level_dims in Nc.
+    rewrite (nth_map_lt _ _ _ _ O) in Nc by exact I1. rewrite I2 in Nc. exact Nc.
+Qed.
